@@ -25,7 +25,7 @@ use super::*;
 use crate::parse_dsym::DSymSpec;
 use crate::verif_support::{assume, reach_end, vin, vpeek};
 
-const NSHAPE: usize = 22;
+const NSHAPE: usize = 24;
 const HUGE: usize = 1 << 62;
 const TOP: usize = 1 << 63;
 /// [op list lengths x4 (0 = list absent), degree list lengths x3, size, dim] -- all concrete; the
@@ -53,6 +53,8 @@ const SHAPES: [[usize; 9]; NSHAPE] = [
     [3, 1, 0, 0, 1, 0, 0, 2, 1],          // 19: more numbers than chambers
     [1, 1, 0, 0, 1, 0, 0, 1, 3],          // 20: header dimension larger than the lists given
     [1, 1, 1, 0, 1, 1, 0, 1, 1],          // 21: header dimension smaller than the lists given
+    [1, 1, 0, 0, 2, 0, 0, 2, 1],          // 22: size 2 dim 1, o1_1 m2 (two swaps: two orbits of length 1)
+    [1, 2, 0, 0, 1, 0, 0, 2, 1],          // 23: size 2 dim 1, o1_2 m1 (swap, then fixed points: one orbit of length 2)
 ];
 
 // odd bit pattern: see the note on constant merging in support.rs
@@ -225,31 +227,33 @@ macro_rules! proofs {
     )*};
 }
 
-// @harness c01_s1d1_o1_1_m1 tier=quick unwind=6 block=128 mem=6 timeout=900
-// @harness c01_s1d1_o1_1_m1_reach tier=quick unwind=6 block=128 mem=4 timeout=900 twin
-// @harness c01_s2d1_o1_1_m1 tier=quick unwind=6 block=128 mem=8 timeout=900
-// @harness c01_s2d1_o1_1_m1_reach tier=quick unwind=6 block=128 mem=8 timeout=900 twin
-// @harness c01_s2d1_o2_1_m1 tier=quick unwind=6 block=128 mem=8 timeout=900
-// @harness c01_s2d1_o1_2_m2 tier=quick unwind=6 block=128 mem=8 timeout=900
+// @harness c01_s1d1_o1_1_m1 tier=quick unwind=6 block=128 mem=8 timeout=1200
+// @harness c01_s1d1_o1_1_m1_reach tier=quick unwind=6 block=128 mem=8 timeout=1200 twin
+// @harness c01_s2d1_o1_1_m1 tier=quick unwind=6 block=128 mem=9 timeout=1200
+// @harness c01_s2d1_o1_1_m1_reach tier=quick unwind=6 block=128 mem=9 timeout=1200 twin
+// @harness c01_s2d1_o2_1_m1 tier=quick unwind=6 block=128 mem=9 timeout=1200
+// @harness c01_s2d1_o1_2_m2 tier=quick unwind=6 block=128 mem=9 timeout=1200
 // @harness c01_s2d1_o2_2_m2 tier=thorough unwind=6 block=128 mem=30 timeout=3000
-// @harness c01_s1d2_o1_1_1_m1_1 tier=quick unwind=6 block=128 mem=8 timeout=900
+// @harness c01_s1d2_o1_1_1_m1_1 tier=quick unwind=6 block=128 mem=9 timeout=1200
 // @harness c01_s2d2_o1_1_1_m1_1 tier=thorough unwind=6 block=128 mem=40 timeout=3600
 // @harness c01_s2d2_o2_1_2_m1_2 tier=thorough unwind=6 block=128 mem=44 timeout=3600 stretch
 // @harness c01_s3d1_o2_2_m2 tier=thorough unwind=7 block=128 mem=44 timeout=3600 stretch
 // @harness c01_s1d3_o1x4_m1x3 tier=thorough unwind=7 block=128 mem=40 timeout=3600 stretch
-// @harness c01_wrong_m_count tier=quick unwind=6 block=128 mem=2 timeout=900
-// @harness c01_wrong_op_count tier=quick unwind=6 block=128 mem=2 timeout=900
-// @harness c01_hdr_size0 tier=quick unwind=6 block=128 mem=2 timeout=900
-// @harness c01_hdr_dim0 tier=quick unwind=6 block=128 mem=2 timeout=900
-// @harness c01_hdr_dim_max tier=quick unwind=6 block=128 mem=2 timeout=900
-// @harness c01_hdr_size_huge tier=quick unwind=6 block=128 mem=2 timeout=900
-// @harness c01_hdr_size_top tier=quick unwind=6 block=128 mem=2 timeout=900
-// @harness c01_hdr_size_max tier=quick unwind=6 block=128 mem=2 timeout=900
-// @harness c01_hdr_size3_short_lists tier=quick unwind=6 block=128 mem=12 timeout=902
-// @harness c01_hdr_size3_short_lists_reach tier=quick unwind=6 block=128 mem=10 timeout=900 twin
-// @harness c01_s2d1_o3_1_m1 tier=quick unwind=6 block=128 mem=8 timeout=900
-// @harness c01_hdr_dim_too_large tier=quick unwind=6 block=128 mem=2 timeout=900
-// @harness c01_hdr_dim_too_small tier=quick unwind=6 block=128 mem=2 timeout=900
+// @harness c01_wrong_m_count tier=quick unwind=6 block=128 mem=8 timeout=1200
+// @harness c01_wrong_op_count tier=quick unwind=6 block=128 mem=8 timeout=1200
+// @harness c01_hdr_size0 tier=quick unwind=6 block=128 mem=8 timeout=1200
+// @harness c01_hdr_dim0 tier=quick unwind=6 block=128 mem=8 timeout=1200
+// @harness c01_hdr_dim_max tier=quick unwind=6 block=128 mem=8 timeout=1200
+// @harness c01_hdr_size_huge tier=quick unwind=6 block=128 mem=8 timeout=1200
+// @harness c01_hdr_size_top tier=quick unwind=6 block=128 mem=8 timeout=1200
+// @harness c01_hdr_size_max tier=quick unwind=6 block=128 mem=8 timeout=1200
+// @harness c01_hdr_size3_short_lists tier=quick unwind=6 block=128 mem=15 timeout=1200
+// @harness c01_hdr_size3_short_lists_reach tier=quick unwind=6 block=128 mem=12 timeout=1200 twin
+// @harness c01_s2d1_o3_1_m1 tier=quick unwind=6 block=128 mem=9 timeout=1200
+// @harness c01_s2d1_o1_1_m2 tier=quick unwind=6 block=128 mem=8 timeout=900
+// @harness c01_s2d1_o1_2_m1 tier=quick unwind=6 block=128 mem=8 timeout=900
+// @harness c01_hdr_dim_too_large tier=quick unwind=6 block=128 mem=8 timeout=1200
+// @harness c01_hdr_dim_too_small tier=quick unwind=6 block=128 mem=8 timeout=1200
 proofs! {
     c01_s1d1_o1_1_m1 => parse_body::<0, 1, 1>(false);
     c01_s1d1_o1_1_m1_reach => parse_body::<0, 1, 1>(true);
@@ -274,6 +278,8 @@ proofs! {
     c01_hdr_size3_short_lists => parse_body::<17, 3, 1>(false);
     c01_hdr_size3_short_lists_reach => parse_body::<17, 3, 1>(true);
     c01_s2d1_o3_1_m1 => parse_body::<19, 2, 1>(false);
+    c01_s2d1_o1_1_m2 => parse_body::<22, 2, 1>(false);
+    c01_s2d1_o1_2_m1 => parse_body::<23, 2, 1>(false);
     c01_hdr_dim_too_large => parse_body::<20, 1, 3>(false);
     c01_hdr_dim_too_small => parse_body::<21, 1, 2>(false);
 }
